@@ -86,6 +86,15 @@ var plans = map[string]plan{
 		Stubs:  []string{"gossip pubsub (absent: the pubsub path - republished messages, original-peer attribution, own republications - is not exercised)", "wall clock (testing/synctest)"},
 		Assume: commonAssume,
 	},
+	"C12": {
+		Property: "C12", Level: "exploration",
+		Quick:    []phase{{Scen: "C12", Seeds: 8000, Batch: 250}},
+		Thorough: []phase{{Scen: "C12", Seeds: 600000, Batch: 2000}},
+		Rule: "seeded: a dhstore endpoint populated by harness glue (second hash computed independently with crypto/sha256; value keys and metadata encrypted with the library) with 1..4 multihashes (sha2-256, sha2-512, identity) x 1..5 entries over identity-hashed (Ed25519) and SHA-256-hashed (RSA) peer IDs, context IDs of 0..64 bytes, an unknown provider; in two thirds of the runs the store is Byzantine: half of the entries get a value key or metadata truncated to any length (incl. 0), a bit flipped in nonce or ciphertext, encrypted under another passphrase/key, or metadata withheld; a third of the runs add transport faults (error statuses, resets before/mid response, caller cancellation mid-find) and a third run two finds concurrently. The real DHashClient (HTTP dhstore API, provider cache with HTTP source, preload on/off) must return exactly the untampered indexed entries in order; round trip, determinism, wrong-passphrase and value-key split facts are checked on every entry. Non-trivial when a non-empty expectation was compared or a fault fired; distinct = distinct (fault set, canonical log hash)",
+		Real:   []string{"dhash (SecondMultihash, Encrypt/Decrypt value key and metadata, Create/SplitValueKey)", "find/client.DHashClient + dhstoreHTTP", "pcache with HTTP source", "net/http client transport"},
+		Stubs:  []string{"dhstore and providers endpoints (harness handler over maps)", "TCP (net.Pipe)", "HTTP server loop", "wall clock"},
+		Assume: append([]string{"after any transport fault in a run missing results are tolerated (the provider cache may hold a negative entry for the TTL); wrong or duplicated results never are"}, commonAssume...),
+	},
 	"C14": {
 		Property: "C14", Level: "exploration",
 		Quick:    []phase{{Scen: "C14", Seeds: 4000, Batch: 125}},
@@ -103,6 +112,15 @@ var plans = map[string]plan{
 		Real:   []string{"dagsync.Subscriber (watch loop, per-publisher handlers, event distributor, idle-handler cleaner, Close)", "announce.Receiver (direct announcements)", "ipnisync.Sync/Syncer", "ipnisync.Publisher", "chanqueue", "go-ipld-prime traversal", "net/http client transport", "libp2p-HTTP discovery client"},
 		Stubs:  []string{"TCP/TLS (net.Pipe)", "HTTP server loop", "block stores (in-memory)", "wall clock (testing/synctest)", "gossip pubsub (absent: announcements are direct)", "libp2p stream transport (absent)"},
 		Assume: append([]string{"three shutdown races that the library resolves with a select over two ready channels (buffered announcement vs. closed receiver; listener registration/cancellation vs. closing signal) are kept out of the schedule space: which branch the Go runtime takes would not replay. Both outcomes are legal."}, commonAssume...),
+	},
+	"C19": {
+		Property: "C19", Level: "exploration",
+		Quick:    []phase{{Scen: "C19", Seeds: 8000, Batch: 250}},
+		Thorough: []phase{{Scen: "C19", Seeds: 600000, Batch: 2000}},
+		Rule: "seeded: a find endpoint built on the real response writer (prefer-JSON on/off, default and custom path types, http/https) over an index of 1..5 multihashes (sha2-256, sha2-512, identity) with 0..8 results each (nil / empty / binary context IDs and metadata, providers with 0..3 addresses); 4..14 operations per run: the real client's Find and FindBatch (present, absent, mixed), and raw requests over key forms (base58, hex, CIDv1 raw / dag-cbor, non-keys, base58 non-multihash), resource types (known, unknown, prefixed paths) and 13 Accept header combinations (absent, */*, json, ndjson, lists, parameters, unsupported, malformed). Delivery is chunked at random sizes; in a third of the runs responses are reset or cut mid-body or the caller cancels mid-stream (then an operation may fail but never return other data). NDJSON bodies are split at the recorder's flush boundaries. Non-trivial when a non-empty result set was compared or a fault fired; distinct = distinct (fault set, canonical log hash)",
+		Real:   []string{"rwriter.ResponseWriter / ProviderResponseWriter", "find/client.Client.Find, FindBatch", "find/model JSON", "apierror encode/decode", "net/http client transport"},
+		Stubs:  []string{"the find endpoint's index (a map) and handler glue", "TCP/TLS (net.Pipe)", "HTTP server loop with flush recorder", "wall clock"},
+		Assume: append([]string{"when both JSON and NDJSON are acceptable either representation is accepted (the statement does not fix the precedence)"}, commonAssume...),
 	},
 	"C16": {
 		Property: "C16", Level: "exploration",
